@@ -35,11 +35,11 @@ ALT = {
     "alpha": ["auto", "auto_po2", ("real", "alpha")],
     "scale_axis": [0, [0, 1]],
     "elements_per_scale": [2, [2, 3]],
-    "min_po2_exponent": [-3],
-    "max_po2_exponent": [3],
+    "min_po2_exponent": [-3, 0],        # 0 is a legal value everywhere below: truthiness tests must not drop it
+    "max_po2_exponent": [3, 0],
     "max_value": [2.0, 0.5],
     "relu_upper_bound": [6.0],
-    "threshold": [0.5],
+    "threshold": [0.5, 0.0],
     "var_name": ["v"],
     "log2_rounding": ["floor"],
     "negative_slope": [0.25],
